@@ -78,7 +78,7 @@ class C17Check:
         # ---------------- swarm / workload (drawn first so that it shrinks last)
         n_jobs = ch.int(1, 3, "n_jobs")
         preempt_k = ch.choose([0, 0, 4, 12], "preempt_k")
-        shut_kind = ch.choose(["nowait", "none", "wait", "registry", "callback", "nowait+wait", "wait||nowait"], "shut_kind")
+        shut_kind = ch.choose(["nowait", "none", "wait", "registry", "callback", "nowait+wait", "wait||nowait", "signal"], "shut_kind")
         shut_delay = ch.choose([0.0, 0.0005, 0.2, 2.0, 50.0], "shut_delay")
         late_submit = ch.chance(0.5, "late_submit")
         jobs = []
@@ -106,7 +106,8 @@ class C17Check:
         glitch_n = ch.int(1, 3, "psutil_glitch_n")
         glitch_site = ch.choose(["children", "ctor"], "psutil_glitch_site")
         # a hang without a time limit is only a fair workload if somebody will cancel it
-        forced_shutdown = shut_kind in ("nowait", "registry", "callback", "nowait+wait", "wait||nowait")
+        forced_shutdown = shut_kind in ("nowait", "registry", "callback", "nowait+wait", "wait||nowait", "signal")
+        sig_steps = ch.choose([ch.pick(40, "sig_steps.a"), ch.pick(400, "sig_steps.b")], "sig_steps")
         for jb in jobs:
             if jb["dur"] == INF and jb["timeout"] is None and not forced_shutdown:
                 jb["timeout"] = 10.0
@@ -175,7 +176,24 @@ class C17Check:
                     sim.emit("shutdown-raised", kind="wait(concurrent)", exc=type(e).__name__)
                 sim.emit("shutdown-returned", kind="wait(concurrent)")
 
+            class SimExit(BaseException):
+                """what sys.exit() in halmos' signal handler raises on the interrupted thread"""
+
+            def on_signal():
+                # halmos.__main__.on_signal: on_exit() -> ExecutorRegistry().shutdown_all(), then sys.exit()
+                st["signal_delivered"] = True
+                do_shutdown("registry")
+                raise SimExit()
+
             def job_client(j):
+                try:
+                    _job_client(j)
+                except SimExit:
+                    out = outcomes.setdefault(j, {"mode": jobs[j]["mode"]})
+                    out["interrupted"] = True
+                    out["returned"] = True
+
+            def _job_client(j):
                 jb = jobs[j]
                 if jb["delay"]:
                     sim.sleep(jb["delay"], "client.delay")
@@ -203,7 +221,7 @@ class C17Check:
                     try:
                         out["result"] = fut.result()
                     except BaseException as e:  # noqa: BLE001
-                        if type(e).__name__ == "SimAbort":
+                        if type(e).__name__ in ("SimAbort", "SimExit"):
                             raise
                         out["raised"] = type(e).__name__
                     out["returned"] = True
@@ -219,7 +237,7 @@ class C17Check:
                         out["submit"] = "ShutdownError"
                         return
                     except BaseException as e:  # noqa: BLE001
-                        if type(e).__name__ == "SimAbort":
+                        if type(e).__name__ in ("SimAbort", "SimExit"):
                             raise
                         out["submit"] = "accepted"
                         out["raised"] = type(e).__name__
@@ -252,6 +270,14 @@ class C17Check:
                     sim.sleep(ch.choose([0.0005, 0.3, 5.0], "shut_gap"), "client.delay")
                     do_shutdown("nowait")
                     w.join()
+                elif shut_kind == "signal":
+                    # client0 plays the main thread: the handler runs on its stack, wherever it is (fallback: it finished before)
+                    sim.block("client.wait-signal", lambda: st.get("signal_delivered") or outcomes.get(0, {}).get("returned")
+                              or outcomes.get(0, {}).get("submit") == "ShutdownError")
+                    if not st.get("signal_delivered"):
+                        do_shutdown("nowait")
+                    else:
+                        sim.block("client.wait-shut", lambda: st["shutdown_returned_at"] is not None)
                 elif shut_kind == "callback":
                     # the callback does it; make sure it happens at all
                     sim.block("client.wait-cb", lambda: st["shutdown_returned_at"] is not None
@@ -285,6 +311,8 @@ class C17Check:
                 for t in ts:
                     t.join()
 
+            if shut_kind == "signal":
+                sim.set_interrupt("client0", sig_steps, on_signal)
             sim.run(main)
 
             # ---------------- oracles over the recorded history
@@ -330,6 +358,13 @@ class C17Check:
             if sim.outcome == "done":
                 for j, out in outcomes.items():
                     if j == "late" or out.get("submit") != "accepted":
+                        continue
+                    if out.get("interrupted"):
+                        # the waiter was unwound by the signal handler's sys.exit(): it did not see a result; the job itself is
+                        # still covered by the process-table and callback-count oracles
+                        if jobs[j]["mode"] == "direct" and cb_counts.get(j) != 1:
+                            violations.append(dict(oracle="C17:result-not-once", disc=f"callbacks={cb_counts.get(j)}:interrupted",
+                                                   detail=f"job {j}: done-callback ran {cb_counts.get(j)} times"))
                         continue
                     jb = jobs[j]
                     so, se, rc = REPLIES[jb["reply"]]
